@@ -116,6 +116,12 @@ def replay_call(ob, call):
             d = json.loads(line[7:])
             if d.get('exception') and d['exception'] in _declared_raises(path, ob.func):
                 d['ok'] = True
+            elif d.get('exception') in ('AttributeError', 'TypeError') and \
+                    re.search(r"'(Fake\w*|Mem\w*|_[A-Z]\w*)' object", d.get('msg', '')):
+                # the real code used a part of an interface that a contract stub of the harness does not model
+                # (e.g. iterating an in-memory file): a limitation of the harness, never a verdict about pharmpy
+                d['ok'] = None
+                d['note'] = 'raised inside a contract stub of the harness (interface not modelled)'
             return d
     return dict(ok=None, note='replay produced no verdict', stderr=p.stderr[-500:])
 
